@@ -9,7 +9,8 @@ Correspondence (model evaluated inside Coq on what the implementation just did):
          implementation, compared with the model's parse and with the position written;
   mut    grammar-directed mutations of valid strings: observed Accept position / IllegalTPS /
          other exception; model Reject must meet IllegalTPS, model Accept the same position.
-Model-Unspecified inputs (move number of more than 4300 digits) are skipped and counted."""
+The model never answers Unspecified (C13_never_unspecified); move numbers of more than 4300 digits (int() limit)
+are generated on purpose and compared like everything else: IllegalTPS against Reject."""
 import contextlib
 import hashlib
 import os
@@ -19,7 +20,7 @@ from ..core import clist, cstr
 
 ID = "C13"
 THEOREMS = ["C13_parse_format", "C13_format_parse_canonical", "C13_canonical_format", "C13_parse_meaning",
-            "C13_parse_reserves", "C13_parse_refuses", "C13_parse_refuses_early", "C13_parse_unspecified_iff",
+            "C13_parse_reserves", "C13_parse_refuses", "C13_never_unspecified",
             "C13_split_characterised", "C13_decimal_round_trip", "C13_defaults_tie"]
 MODEL_TARGETS = ["model/Tak.vo", "model/Harness.vo", "model/Lit.vo", "model/Tps.vo"]
 TRUSTED_BASE = [
@@ -28,9 +29,9 @@ TRUSTED_BASE = [
     "the independent TPS writer and reference reader in harness/props/c13.py (used to produce canonical strings and by the search)",
 ]
 ASSUMPTIONS = [
-    "move-number fields longer than sys.int_max_str_digits = 4300 characters make int() raise ValueError before any "
-    "board check; the model answers Unspecified there and every theorem about refusal carries the guard int_limit_ok",
-    "format_tps is compared for positions with ply // 2 + 1 < 10^4300 only (str() of a larger int raises ValueError)",
+    "sys.int_max_str_digits = 4300 (CPython default): a longer all-digit move number makes int() raise ValueError, which "
+    "parse_tps turns into IllegalTPS; the model refuses on length > 4300 (the over-limit strings of the mut stream tie this)",
+    "format_tps is compared for positions with ply // 2 + 1 < 10^4300 only (str() of a larger int raises ValueError; wf carries the guard)",
 ]
 
 HEADER = """From Coq Require Import ZArith List Bool.
@@ -109,12 +110,14 @@ def j_obs(o):
 
 
 def expect_unspec(s):
-    """the one class on which the model answers Unspecified (checked inside Coq, not trusted)"""
+    """inputs on which the model is expected to answer Unspecified: none (C13_never_unspecified); the flag is still
+    carried through the cases so that a model change that re-introduces the class is seen inside Coq"""
+    return False
+
+
+def over_limit(s):
     bits = s.split(" ")
-    if len(bits) != 3 or bits[1] not in ("1", "2"):
-        return False
-    m = bits[2]
-    return len(m) > MAXD and all("0" <= c <= "9" for c in m)
+    return len(bits) == 3 and len(bits[2]) > MAXD
 
 
 # --------------------------------------------------------------------------
@@ -169,6 +172,8 @@ def ref_read(s):
         return ("refuse", "player")
     if m == "" or any(c not in "0123456789" for c in m):
         return ("refuse", "move number")
+    if len(m) > MAXD:
+        return ("refuse", "move number longer than int() converts")
     lenient = len(m) > 1 and m[0] == "0"
     mv = 0
     for c in m:
@@ -590,13 +595,22 @@ def _cases_mut(run, seeds, n_mut):
     items = [(s, "fixed") for s in FIXED_STRINGS]
     for _ in range(n_mut):
         items.append(mutated(rng, rng.choice(seeds)))
-    # the interpreter-limit class, with a well-formed and an ill-formed board
+    # the interpreter-limit class, with a well-formed and an ill-formed board.  The long digit runs are emitted as
+    # `repeat d n` (a 4300-element list literal costs Coq's parser seconds and hundreds of MB)
+    long_terms = {}
+
+    def long_item(head, runs, tag):
+        text = head + "".join(ch * n for ch, n in runs)
+        long_terms[text] = "(" + " ++ ".join([cstr(head)] + [f"repeat {ord(ch)} {n}%nat" for ch, n in runs]) + ")%list"
+        items.append((text, tag))
+
     for b in ("x3/x3/x3", "x3/x3/xa", "x3/x3"):
-        for m in ("1" * (MAXD + 1), "0" * MAXD + "1", "9" * (MAXD + 7)):
-            items.append((f"{b} {rng.choice('12')} {m}", "int-limit"))
-    items.append(("x3/x3/x3 1 " + "1" * MAXD, "int-limit-edge"))
-    items.append(("x3/x3/x3 1 " + "0" * (MAXD - 1) + "7", "int-limit-edge"))
-    items.append(("x3/x3/x3 3 " + "1" * (MAXD + 1), "int-limit-player-first"))
+        long_item(f"{b} {rng.choice('12')} ", [("1", MAXD + 1)], "int-limit")
+        long_item(f"{b} {rng.choice('12')} ", [("0", MAXD), ("1", 1)], "int-limit")
+        long_item(f"{b} {rng.choice('12')} ", [("9", MAXD + 7)], "int-limit")
+    long_item("x3/x3/x3 1 ", [("1", MAXD)], "int-limit-edge")
+    long_item("x3/x3/x3 1 ", [("0", MAXD - 1), ("7", 1)], "int-limit-edge")
+    long_item("x3/x3/x3 3 ", [("1", MAXD + 1)], "int-limit-player-first")
     lenient = must_refuse_accepted = 0
     direct = []
     for s, tag in items:
@@ -604,6 +618,8 @@ def _cases_mut(run, seeds, n_mut):
         u = expect_unspec(s)
         ref = ref_read(s)
         key = _key("mut", s)
+        if over_limit(s):
+            dist["over the int() limit (compared)"] = dist.get("over the int() limit (compared)", 0) + 1
         if u:
             dist["Unspecified(skipped)"] += 1
         else:
@@ -618,7 +634,7 @@ def _cases_mut(run, seeds, n_mut):
                 lenient += 1
         for t in tag.split("+"):
             tags[t] = tags.get(t, 0) + 1
-        cs.add(f"({core.cbool(u)}, {cstr(s)}, {c_obs(o)})",
+        cs.add(f"({core.cbool(u)}, {long_terms.get(s) or cstr(s)}, {c_obs(o)})",
                {"key": key, "kind": "mut", "mutation": tag, "text": s if len(s) < 300 else s[:120] + f"...({len(s)} chars)",
                 "text_codepoints": [ord(c) for c in s] if len(s) < 6000 else None, "expect_unspecified": u, "impl": j_obs(o)})
         seen.add(key)
@@ -675,8 +691,8 @@ def correspondence(run):
     run.oblige(f"correspondence:mut ({nshards3} shards)", not shard_fail3, str(shard_fail3)[:1500])
     run.count(len(cs3), n3,
               "grammar-directed mutations (depth <= 3) of valid strings plus a fixed list of malformed texts: observed "
-              "Accept position / IllegalTPS / other exception against the model's Accept / Reject; the model's Unspecified "
-              "class (move number longer than 4300 digits) is confirmed inside Coq and skipped; distinct texts counted",
+              "Accept position / IllegalTPS / other exception against the model's Accept / Reject (incl. move numbers over the int() limit, "
+              "which must be refused); the model answers Unspecified nowhere, nothing is skipped; distinct texts counted",
               samples3, dist3, label="mut")
     run.extra["model_unspecified_skipped"] = dist3["Unspecified(skipped)"]
     _report(run, cs3, failing3, lim, lambda m: {"clause": "malformed text is refused with IllegalTPS; well-formed text is read as written",
